@@ -21,3 +21,50 @@ Definition S_zuck_valid : Prop := forall p cs k start g,
 Definition S_zuck_depth : Prop := forall p cs k start g m,
   max_ref p = Some m ->
   Forall (fun d => d <= m) (depths (zuck_sel p cs k start g)).
+
+(** * The greedy rule under an arbitrary tie-break ([greedy_run_ok])
+
+    [greedy_run_ok p cs start g sel] accepts exactly the selections in which every node
+    either takes no reference while no admissible candidate is strictly cheaper than the
+    copy-less encoding, or takes an admissible candidate that is strictly cheaper than the
+    copy-less encoding and of minimal cost among the admissible candidates — the outputs of
+    the greedy rule for every way of breaking ties among equally cheap candidates. *)
+
+(** the deterministic model (nearest candidate of minimal cost) is one of the runs *)
+Definition S_greedy_sel_run_ok : Prop := forall p cs start g,
+  greedy_run_ok p cs start g (greedy_sel p cs start g) = true.
+
+(** every run only picks valid references ... *)
+Definition S_greedy_run_valid : Prop := forall p cs start g sel,
+  greedy_run_ok p cs start g sel = true -> valid_sel p [] g sel = true.
+
+(** ... and never builds a reference chain deeper than [max_ref] *)
+Definition S_greedy_run_depth : Prop := forall p cs start g sel m,
+  greedy_run_ok p cs start g sel = true ->
+  max_ref p = Some m ->
+  Forall (fun d => d <= m) (depths sel).
+
+(** What one step of the checker accepts, without reference to the scan: [admissible] are the
+    candidates [BvComp::push] estimates (distance within the window and the nodes pushed so
+    far, count below [max_ref], non-empty list), [cand_cost] the model's estimate. *)
+Definition admissible (p : params) (prev : list (list N * N)) (d : N) (rl : list N) (cnt : N)
+  : Prop :=
+  1 <= d /\ d <= window p /\ d <= nlen prev /\
+  nth_opt prev (N.to_nat d - 1) = Some (rl, cnt) /\ rl <> [] /\
+  exceeds (max_ref p) cnt = false.
+
+Definition cand_cost (p : params) (cs : codes) (x : N) (cur : list N) (d : N) (rl : list N) : N :=
+  fields_len cs (node_fields p x cur d rl).
+
+Definition S_greedy_choice_ok_spec : Prop := forall p cs x cur prev d c,
+  greedy_choice_ok p cs x cur prev d = Some c <->
+  if window p =? 0 then d = 0 /\ c = 0
+  else
+    (d = 0 /\ c = 0 /\
+     forall d' rl' cnt', admissible p prev d' rl' cnt' ->
+                         cand_cost p cs x cur 0 [] <= cand_cost p cs x cur d' rl') \/
+    (exists rl cnt,
+       admissible p prev d rl cnt /\ c = cnt + 1 /\
+       cand_cost p cs x cur d rl < cand_cost p cs x cur 0 [] /\
+       forall d' rl' cnt', admissible p prev d' rl' cnt' ->
+                           cand_cost p cs x cur d rl <= cand_cost p cs x cur d' rl').
